@@ -96,6 +96,7 @@ class Plain:
     def __ror__(self, o): return (o | self.v) + 5000
     def __rxor__(self, o): return (o ^ self.v) + 6000
     def __rfloordiv__(self, o): return o // (self.v + 1) + 9000
+    def __rtruediv__(self, o): return o * (self.v + 2) + 11000
     def __rmod__(self, o): return o % (self.v + 1) + 10000
 
 
@@ -141,8 +142,8 @@ def p_cmp_chain(a, b, c):
 
 def p_binop_reflected(a, b, c):
     r = Plain(b)
-    ops = [a + r, a - r, a * r, a & r, a | r, a ^ r, a // r, a % r]
-    return ops[c % 8] + ops[(c + 3) % 8] % 7 + ops[(a + b) % 8] * 2
+    ops = [a + r, a - r, a * r, a & r, a | r, a ^ r, a // r, a % r, a / r]
+    return ops[c % 9] + ops[(c + 3) % 9] % 7 + ops[(a + b) % 9] * 2 + ops[6] + ops[8]
 
 
 def p_binop_decline(a, b, c):
@@ -330,6 +331,40 @@ class Derived2(Derived):
         return super().val() + 5
 
 
+class WithNew:
+    """custom __new__ and __init__ that take the same keyword"""
+
+    def __new__(cls, v, k=1):
+        return object.__new__(cls)
+
+    def __init__(self, v, k=1):
+        self.v = v
+        self.k = k
+
+
+def p_class_new_kwargs(a, b, c):
+    x = WithNew(a, k=b + 5)
+    y = WithNew(c)
+    return x.v * 1000 + x.k * 100 + y.k * 10 + y.v
+
+
+def p_class_new_all_keywords(a, b, c):
+    z = WithNew(v=b, k=a)
+    return z.k * 7 + z.v * 3
+
+
+def _kw_a(a=0, **kw):
+    return a * 10 + len(kw)
+
+
+def p_err_duplicate_in_double_star(a, b, c):
+    return _kw_a(a=a, **{"a": b})     # CPython: multiple values for keyword argument 'a'
+
+
+def p_double_star_ok(a, b, c):
+    return _kw_a(a=a, **{"x": b, "y": c}) + _kw_a(**{"a": c}) * 100
+
+
 def p_classes(a, b, c):
     objs = [Base(a), Derived(a, b), Derived2(b, c)]
     parts = [o.describe() + o.twice + o(2) for o in objs]
@@ -359,11 +394,13 @@ def p_subscripts(a, b, c):
 
 def p_comprehension(a, b, c):
     evens = [i for i in range(a + b + 2) if i % 2 == c % 2]
+    window = [t for t in range(8) if t > a if t < b + 4 if t != c + 2]
+    dwin = {t: t + 1 for t in range(6) if t >= a if t <= b + 2}
     sq = {i: i * i for i in range(b + 2) if i != a}
     prod = [i * j for i, j in zip(range(a + 1), range(c + 1))]
     both = [x + y for x, y in [(i, i + a) for i in range(b + 1)]]
     idx = [i * v for i, v in enumerate([a, b, c])]
-    return (len(evens) * 1000 + _total(evens) * 10 + _total(list(sq.values())) + _total(prod) * 3 + _total(both) * 5 + _total(idx) * 7) % 60000
+    return (len(window) * 7000 + _total(window) * 13 + _total(list(dwin.values())) * 17 + len(evens) * 1000 + _total(evens) * 10 + _total(list(sq.values())) + _total(prod) * 3 + _total(both) * 5 + _total(idx) * 7) % 60000
 
 
 def p_control(a, b, c):
@@ -389,4 +426,4 @@ def p_builtins(a, b, c):
 
 
 BANK = [p_cmp_reflected, p_cmp_decline, p_cmp_left_int, p_cmp_eq_identity, p_cmp_chain, p_binop_reflected, p_binop_decline, p_boolops, p_call_kinds, p_defaults,
-        p_err_too_many, p_err_multiple_values, p_err_posonly_by_keyword, p_err_unknown_keyword, p_err_missing, p_err_missing_kwonly_style, p_err_multiple_values_2, p_closure_vs_global, p_closure_prebuilt, p_closure_late_binding, p_closure_default_capture, p_closure_shared_cell, p_classes, p_unpack, p_subscripts, p_comprehension, p_control, p_builtins]
+        p_err_too_many, p_err_multiple_values, p_err_posonly_by_keyword, p_err_unknown_keyword, p_err_missing, p_err_missing_kwonly_style, p_err_multiple_values_2, p_closure_vs_global, p_closure_prebuilt, p_closure_late_binding, p_closure_default_capture, p_closure_shared_cell, p_class_new_kwargs, p_class_new_all_keywords, p_err_duplicate_in_double_star, p_double_star_ok, p_classes, p_unpack, p_subscripts, p_comprehension, p_control, p_builtins]
